@@ -1,0 +1,108 @@
+//go:build verif
+// +build verif
+
+package tengo
+
+import (
+	"sync/atomic"
+
+	"github.com/d5/tengo/v2/parser"
+)
+
+// Verification hooks, compiled only with the "verif" build tag. They expose
+// read-only views of VM/compiler state to an external runtime monitor and
+// named yield points used to widen interleavings. None of them changes the
+// behaviour of the engine unless the monitor asks for it (VerifForceStop,
+// VerifKeepDeadCode).
+
+// VerifProbe, if non-nil, is called on the VM goroutine right before every
+// instruction is dispatched (v.VerifIP() is the offset of its opcode).
+var VerifProbe func(v *VM)
+
+// VerifKeepDeadCode makes optimizeFunc keep every instruction (jumps are
+// still re-targeted through the identity map and the final return is still
+// appended).
+var VerifKeepDeadCode bool
+
+// VerifOptimized, if non-nil, receives the tables of every optimizeFunc run.
+var VerifOptimized func(orig []byte, posMap map[int]int, optimized []byte,
+	origSourceMap, newSourceMap map[int]parser.Pos, appendReturn bool)
+
+// VerifYield, if non-nil, is called at named points between critical sections.
+var VerifYield func(point string)
+
+func verifProbe(v *VM) {
+	if f := VerifProbe; f != nil {
+		f(v)
+	}
+}
+
+func verifKeepDeadCode() bool { return VerifKeepDeadCode }
+
+func verifOptimized(
+	orig []byte, posMap map[int]int, optimized []byte,
+	origSourceMap, newSourceMap map[int]parser.Pos, appendReturn bool,
+) {
+	if f := VerifOptimized; f != nil {
+		f(orig, posMap, optimized, origSourceMap, newSourceMap, appendReturn)
+	}
+}
+
+func verifYield(point string) {
+	if f := VerifYield; f != nil {
+		f(point)
+	}
+}
+
+// VerifIP returns the offset of the instruction about to be dispatched.
+func (v *VM) VerifIP() int { return v.ip }
+
+// VerifInsts returns the instruction stream of the current function.
+func (v *VM) VerifInsts() []byte { return v.curInsts }
+
+// VerifSP returns the operand stack pointer.
+func (v *VM) VerifSP() int { return v.sp }
+
+// VerifBase returns the base pointer of the current frame.
+func (v *VM) VerifBase() int { return v.curFrame.basePointer }
+
+// VerifFrameIndex returns the number of active frames.
+func (v *VM) VerifFrameIndex() int { return v.framesIndex }
+
+// VerifCurFn returns the function executing in the current frame.
+func (v *VM) VerifCurFn() *CompiledFunction { return v.curFrame.fn }
+
+// VerifNumFree returns the number of free variables of the current frame.
+func (v *VM) VerifNumFree() int { return len(v.curFrame.freeVars) }
+
+// VerifAborting reports whether the abort flag is set.
+func (v *VM) VerifAborting() bool { return atomic.LoadInt64(&v.aborting) != 0 }
+
+// VerifForceStop sets the abort flag (used by monitors to end runaway runs).
+func (v *VM) VerifForceStop() { atomic.StoreInt64(&v.aborting, 1) }
+
+// VerifStackAt returns the operand stack slot i (nil if out of range).
+func (v *VM) VerifStackAt(i int) Object {
+	if i < 0 || i >= len(v.stack) {
+		return nil
+	}
+	return v.stack[i]
+}
+
+// VerifGlobals returns the globals slice of the VM.
+func (v *VM) VerifGlobals() []Object { return v.globals }
+
+// VerifConstants returns the constants of the VM.
+func (v *VM) VerifConstants() []Object { return v.constants }
+
+// VerifBytecode returns the bytecode of a compiled script.
+func (c *Compiled) VerifBytecode() *Bytecode { return c.bytecode }
+
+// VerifGlobals returns the globals of a compiled script (no locking).
+func (c *Compiled) VerifGlobals() []Object { return c.globals }
+
+// VerifGlobalIndexes returns the name to index table of a compiled script.
+func (c *Compiled) VerifGlobalIndexes() map[string]int { return c.globalIndexes }
+
+// VerifNumBuiltins returns the number of builtin functions.
+func VerifNumBuiltins() int { return len(builtinFuncs) }
